@@ -328,6 +328,19 @@ def run(ctx: Ctx) -> int:
     ok = bool(static or mro) and not (own_only and not mro)
     ctx.oblige("C12.f", ok, (own_only or static or [icm])[0], "is_classmethod looks the attribute up statically through the MRO (inherited classmethods included)" if ok else "is_classmethod only looks at the class's own attributes: a classmethod inherited from a base class is taken for a plain function, its first real parameter is dropped as if it were `cls`, and the method is called without it", fn=icm)
 
+    # has_parameter asks the full signature (keyword-only parameters included); the methods offered as subcommands
+    # are the class's members through the MRO (inherited methods, classmethods), not just its own dict
+    hp = ctx.func("_cli:has_parameter")
+    sig = [n_ for n_ in ast.walk(hp) if isinstance(n_, ast.Attribute) and n_.attr == "parameters" and isinstance(n_.value, ast.Call) and call_leaf(n_.value) == "signature"]
+    partial_ = [n_ for n_ in ast.walk(hp) if (isinstance(n_, ast.Call) and call_leaf(n_) in ("getfullargspec", "getargspec", "getargs")) or (isinstance(n_, ast.Attribute) and n_.attr in ("co_varnames", "__code__"))]
+    ok = bool(sig) and not partial_
+    ctx.oblige("C12.f", ok, (partial_ or sig or [hp])[0], "has_parameter looks at inspect.signature(...).parameters (every parameter kind)" if ok else "has_parameter no longer asks the full signature: a keyword-only parameter named `config` is not seen, auto_cli adds its own --config option next to it and the component cannot be built or called", fn=hp, construct="has_parameter full signature")
+    gcm = ctx.func("_cli:get_class_methods")
+    through_mro = any(isinstance(n_, ast.Call) and call_leaf(n_) in ("getmembers", "dir", "getmembers_static") for n_ in ast.walk(gcm))
+    own = [n_ for n_ in ast.walk(gcm) if (isinstance(n_, ast.Call) and call_leaf(n_) == "vars") or (isinstance(n_, ast.Attribute) and n_.attr == "__dict__")]
+    ok = through_mro and not own
+    ctx.oblige("C12.f", ok, (own or [gcm])[0], "the methods offered as subcommands are the class's members through the MRO" if ok else "get_class_methods only lists the class's own attributes: inherited methods and classmethods are not offered as subcommands (a class whose public methods are all inherited is treated as having none)", fn=gcm, construct="class methods through the MRO")
+
     ctx.trusted_base += ["argparse raises on conflicting option strings, so an unconditional --config option fails loudly if the component has a `config` parameter"]
     return ctx.finish(
         explanation=(
